@@ -42,6 +42,9 @@ def run(ctx):
     check_nullish_tables(ctx, 'R1')
     r1_null_rows_after_gates(ctx)
     r2_defaults(ctx)
+    from . import shared
+    shared.effect_free(ctx, 'R2', [f'{N.PUBLIC}.dumps', f'{N.MAPPER}.valid'],
+                       'an option value passed explicitly (a set reused between calls, a shared default) must mean the same in every call')
     ctx.alias = {'R1': 'R2', 'R3': 'R2'}
     c05.r1_selected_set(ctx)
     c20.r3_dump(ctx)
